@@ -342,6 +342,24 @@ func (m *M) Step(line string) string {
 	case "dump":
 		return Dump(m.F.Data())
 	}
+	if f[0] == "deletesgid" && len(f) == 3 {
+		// delete the group with this id wherever it lives (generators cannot know the policy)
+		id := u64(f[1])
+		found := false
+		for _, db := range m.F.Data().Databases {
+			for _, rp := range db.RetentionPolicies {
+				for _, g := range rp.ShardGroups {
+					if g.ID == id && !found {
+						found = true
+						f = []string{"deletesg", UnNm(db.Name), UnNm(rp.Name), f[1], f[2]}
+					}
+				}
+			}
+		}
+		if !found {
+			return "nogroup"
+		}
+	}
 	cmd, age, ok := Build(f)
 	if !ok {
 		return "bad-op"
